@@ -485,3 +485,120 @@ func locksetString(l lockset) string {
 	sort.Strings(ks)
 	return "{" + strings.Join(ks, ",") + "}"
 }
+
+// checkNoReopen enforces the atomicity half of T3: a function that holds the
+// mutex of pr while it reads protected state must not release and re-take it
+// before it writes protected state (or commits to the lock backend). A
+// critical section that is opened twice in one function makes every check done
+// in the first half stale in the second.
+//
+// Instance: each function of the package that locks the mutex. Violation: an
+// inline Unlock U of the mutex such that (1) a Lock of the mutex reaches U,
+// (2) a Lock of the same mutex is reachable from U, and (3) from that Lock a
+// protected write or one of the commit calls is reachable.
+func (c *Ctx) checkNoReopen(pr Protected, commits ...Callee) {
+	p := c.P
+	fields := map[*types.Var]bool{}
+	for _, fn := range pr.Fields {
+		if fv := p.fieldVar(pr.Pkg, pr.Type, fn); fv != nil {
+			fields[fv] = true
+		}
+	}
+	mu := p.fieldVar(pr.Pkg, pr.Type, pr.Mutex)
+	if mu == nil || len(fields) == 0 {
+		c.Unk(pr.Type+"."+pr.Mutex+" continuity", "mutex or protected fields not found")
+		return
+	}
+	isMu := func(info *types.Info, call *ast.CallExpr) (string, string, bool) {
+		key, op, ok := mutexOp(info, call)
+		if !ok {
+			return "", "", false
+		}
+		sel := ast.Unparen(call.Fun).(*ast.SelectorExpr)
+		if _, fok := fieldSel(info, sel.X, pr.Pkg, pr.Type, pr.Mutex); !fok {
+			return "", "", false
+		}
+		return key, op, true
+	}
+	n := 0
+	for _, f := range p.Funcs(pr.Pkg) {
+		if f.Body == nil {
+			continue
+		}
+		info := f.Info()
+		g := f.Graph()
+		var locks, unlocks []Site
+		keys := map[*ast.CallExpr]string{}
+		for _, s := range f.Find(func(x ast.Node) bool {
+			call, ok := x.(*ast.CallExpr)
+			if !ok {
+				return false
+			}
+			_, _, ok = isMu(info, call)
+			return ok
+		}) {
+			key, op, _ := isMu(info, s.Call)
+			keys[s.Call] = key
+			if _, deferred := s.Node.(*ast.DeferStmt); deferred {
+				continue
+			}
+			switch op {
+			case "Lock", "RLock":
+				locks = append(locks, s)
+			case "Unlock", "RUnlock":
+				unlocks = append(unlocks, s)
+			}
+		}
+		if len(locks) == 0 {
+			continue
+		}
+		n++
+		c.touch(f)
+		inst := f.Name + " holds " + pr.Type + "." + pr.Mutex + " continuously"
+		accs := f.accessesOf(fields)
+		commitSites := f.CallsW(commits...)
+		bad := false
+		for _, u := range unlocks {
+			// (1) the mutex is held when U runs: some Lock of the same mutex reaches U
+			held := false
+			for _, l1 := range locks {
+				if keys[l1.Call] == keys[u.Call] {
+					if pt, _ := g.Reach(l1.After(), Cut{}, atSite(u)); pt != nil {
+						held = true
+					}
+				}
+			}
+			if !held {
+				continue
+			}
+			for _, l2 := range locks {
+				if keys[l2.Call] != keys[u.Call] {
+					continue
+				}
+				if pt, _ := g.Reach(u.After(), Cut{}, atSite(l2)); pt == nil {
+					continue
+				}
+				// (3) a protected write or a commit after the re-lock
+				var after []Site
+				for _, a := range accs {
+					if a.Write {
+						after = append(after, a.Site)
+					}
+				}
+				after = append(after, commitSites...)
+				if pt, _ := g.Reach(l2.After(), Cut{}, atAnySite(after)); pt != nil {
+					c.Bad(inst, u.Pos(), fmt.Sprintf("%s releases %s.%s at %s and takes it again at %s before updating the protected state: what was checked under the lock (%s) may no longer hold when it is acted on",
+						f.Name, pr.Type, pr.Mutex, u.Pos(), l2.Pos(), strings.Join(pr.Fields, ", ")))
+					bad = true
+				}
+			}
+		}
+		if !bad {
+			c.add(Result{Instance: inst, Verdict: Discharged, Evals: len(unlocks) + 1, Sites: sitePositions(locks),
+				Detail: fmt.Sprintf("%d lock site(s), %d inline unlock(s): no protected state is read, the lock dropped and re-taken, and then protected state written", len(locks), len(unlocks))})
+		}
+	}
+	if n == 0 {
+		c.Unk(pr.Type+"."+pr.Mutex+" continuity", "no function locks this mutex")
+	}
+}
